@@ -22,6 +22,16 @@ CLAIMS = {
          "time.After/Sleep virtual; rand.Intn arbitrary in range; expo() evaluated on concrete arguments; BackOffWeight from a boundary set in the overflow lemma (a symbolic 64-bit divisor is undecided by all solvers here)."),
  "C05": ("The real KVSnapshot (Get, BatchGet incl. the async path, Scanner forward/reverse, cache, SetSnapshotTS, lock classification through the real LockResolver, RegionRequestSender and RegionCache) runs against a harness store holding symbolic MVCC content at the snapshot ts over a symbolic region layout; results are compared with a model for symbolic bounds, batch sizes, key-only, topology events (split/merge/epoch errors) and every ghost status of a foreign lock.",
          "<= 3 rows with a 1,2,1 byte key-length profile, <= 3 regions, <= 2 topology events, one foreign transaction; replica-read variants outside. One known finding (reverse scan from the end of the key space)."),
+ "C07": ("UnionIter over two strictly monotone symbolic key sequences (forward and reverse, tombstones, errors of either side), KVUnionStore.Get/Iter/IterReverse with symbolic bounds, and BufferBatchGetter.BatchGet (distinct and duplicated request keys) against the map model snapshot ⊕ buffer: monotone, sound, complete, inside bounds, buffer first, tombstones hide.",
+         "<= 2 (quick) / 3 (thorough) entries per side, keys <= 2 bytes (bounds <= 1 byte); staging/checkpoint behaviour of the buffers is under C08."),
+ "C08": ("Value log/arena (appends, checkpoints, revert, truncate at block boundaries), the key-flag algebra over every kv.FlagsOp generated from source, radix-node bitmap scans and prefix compare, size limits, iterator invalidation, and the REAL ART and RBT buffers against a map model on symbolic operation sequences (set/delete/flags/staging/release/cleanup/checkpoint/revert, iteration with symbolic bounds, fan-out pre-states up to 48 children).",
+         "<= 2-3 keys of <= 2 bytes, <= 2 (quick) / 4 (thorough) operations; ART node arithmetic runs through the byte-view model of unsafe overlays; one known finding (checkpoint in-place swap)."),
+ "C09": ("Containment predicates, gap check, rangesAfterKey, BatchLocateKeyRanges / LocateKeyRange coverage over a symbolic cache subset of a symbolic truth layout (also one generation stale), single-key lookups, GroupKeysByRegion, insert non-regression with 64-bit symbolic epochs over the real btree, OnRegionEpochNotMatch and UpdateLeader; PD is a harness pd.Client.",
+         "<= 3 regions, <= 2 (quick) / 3 (thorough) ranges, keys <= 1-2 bytes; the liveness half (convergence to the leader) and store liveness probing are outside. One known finding (LocateEndKey of the empty key)."),
+ "C10": ("Reduced claim: one-step lemmas of the replica selector over arbitrary selector states (a write never carries replica/stale read, the target was a candidate, attempt counters grow, onUpdateLeader is the only decrease), validateReadTS mapping, and the real SendReqCtx over fault scripts from a 15-event alphabet with a harness client: retry flag discipline, no fabricated success, sleep within budget.",
+         "3 replicas; scripts <= 1 (quick) / 2-3 (thorough) events; selector step harnesses use function seams on isCandidate/calculateScore (composition argument in props); forwarding/proxy paths and slowness scores outside."),
+ "C12": ("The real mock-TiKV MVCC code runs over a harness ordered map in place of goleveldb (function seams); 20 algebraic laws after symbolic command prefixes with symbolic, pairwise distinct 64-bit timestamps: idempotence, never commit and rollback, rejection after a final state, Get/Scan/ReverseScan/BatchGet/ScanLock vs an independent decode of the records, resolve, GC, heartbeat, min-commit-ts push, TiKV-defined pessimistic cases.",
+         "2 keys, 2 transactions, prefixes <= 2 (quick) / 3 (thorough) commands on top of 6 base histories; the response-by-response reference model, rpc.go and the deadlock detector are outside; harnesses replay through the interpreter (function seams)."),
  "C13": ("ComposeTS/Extract algebra for all physical < 2^45 and logical < 2^18, expiry consistency for all 63-bit timestamps, setLastTS under compare-and-swap interference (function seam on atomic.Pointer.CompareAndSwap), low-resolution cache sequences with out-of-order futures, ValidateReadTS with the real singleflight and goroutines, the commit-wait loop, and the local oracle.",
          "k <= 3 (quick) / 5 (thorough) operations or interferences; physical times of the calendar conversions from a boundary table; GetStaleTimestamp and the adaptive update interval outside; T4 explores one cooperative schedule."),
  "C17": ("Latches.acquire/release and LatchesScheduler.wakeup at method granularity, and the real scheduler with one goroutine per transaction, against a ghost holder/max-commit model: exclusion, no lost wake-up, staleness exact, release never panics; arrival/unlock/wake-up order forked, timestamps symbolic.",
@@ -29,7 +39,7 @@ CLAIMS = {
  "C18": ("Reduced claim: id allocation, dispatch by id, exactly-once completion, failRequestsByIDs/failPendingRequests, the builder and the priority queue, one batchRecvLoop iteration per scripted stream and sendBatchRequest's selects with forked readiness.",
          "<= 4 entries, <= 2 hosts. The property's quantifier over goroutine schedules, stream re-creation races and shutdown is OUTSIDE the claim (not addressable by this technique)."),
 }
-GREEN = ["C03", "C04", "C05", "C06", "C13", "C15", "C16", "C17", "C18", "C19", "C20"]
+GREEN = ["C03", "C04", "C05", "C06", "C07", "C08", "C09", "C10", "C12", "C13", "C15", "C16", "C17", "C18", "C19", "C20"]
 CLAIMS = {k: v for k, v in CLAIMS.items() if k in GREEN}
 NA = {
  "C01": "whole-system histories x schedules with the store in the loop: no unit decomposition preserves the statement and the whole-program concurrent run is outside what a symbolic interpreter + SMT can encode (DESIGN.md §4); client-local obligations are decided under C03/C04/C05/C12/C13",
